@@ -155,7 +155,19 @@ func runHistory(p program, hist []req, classify bool) string {
 				path := q.path
 				func() {
 					defer func() { _ = recover() }()
-					r.GET(path, func(c *rux.Context) { c.WriteString("[late route " + path + "]") })
+					h := func(c *rux.Context) { c.WriteString("[late route " + path + "]") }
+					switch i % 5 { // through any of the equivalent registration calls
+					case 0:
+						r.GET(path, h)
+					case 1:
+						r.Add(path, h, "GET")
+					case 2:
+						r.AddRoute(rux.NewRoute(path, h, "GET"))
+					case 3:
+						rux.NewRoute(path, h, "GET").AttachTo(r)
+					default:
+						r.AddNamed(fmt.Sprintf("late%d", i), path, h, "GET")
+					}
 				}()
 			}
 			if classify {
